@@ -375,6 +375,43 @@ class KeepOk:
         self._kept = {}
 
 
+def _dec(x, n=None, kind="iir"):
+    return x
+
+def _take(opts):
+    return {"n": opts.pop("n", None), "kind": opts.pop("kind", "iir")}
+
+def take_ok(data, opts):
+    o = _take(opts)
+    return [_dec(x, **o) for x in data]
+
+def take_bad(data, opts):
+    return [_dec(x, **_take(opts)) for x in data]
+
+def sel_ok(v, ref, rtol):
+    close = np.isclose(v, ref, rtol=rtol)
+    if not close.all():
+        v = v[close]
+    return v
+
+def sel_bad(v, ref, rtol):
+    close = np.isclose(v, ref, rtol=rtol)
+    if not close.any():
+        v = v[close]
+    return v
+
+def _limits_ok(hc):
+    return {k: d if hc.get(k) is None else hc[k] for k, d in (("conj", True), ("lim", 0.7))}
+
+def _limits_bad(hc):
+    return {k: hc.get(k) or d for k, d in (("conj", True), ("lim", 0.7))}
+
+def crit_ok(self):
+    return _limits_ok(self.run_params.hc)
+
+def crit_bad(self):
+    return _limits_bad(self.run_params.hc)
+
 def sp_a(X, n):
     out = []
     for i in range(0, n):
@@ -494,7 +531,8 @@ def run(root):
         def verdicts(fn, quals):
             r_ = Run("C00", "quick", 0)
             r_.rule("R", "x", 0)
-            fn(prog.raw if fn in (astq.repeated_option_rule, effects.alias_inplace_rule, astq.orientation_guess_rule) else prog, r_, "R", ["pyoma2.functions.gen." + q_ for q_ in quals])
+            fn(prog.raw if fn in (astq.repeated_option_rule, effects.alias_inplace_rule, astq.orientation_guess_rule, effects.consumed_in_loop_rule, astq.empty_selection_rule,
+                                  astq.falsy_default_rule) else prog, r_, "R", ["pyoma2.functions.gen." + q_ for q_ in quals])
             return [o.status for o in r_.obs]
         for rule_fn, good, bad in ((astq.shortcut_rule, "pick_ok", "pick_bad"), (astq.inherited_dtype_rule, "typed_ok", "typed_bad"),
                                    (astq.repeated_option_rule, "opt_ok", "opt_bad"), (effects.shared_state_rule, "memo_ok", "memo_bad")):
@@ -504,7 +542,9 @@ def run(root):
                 fails.append(f"{rule_fn.__name__}: sound example {good} -> {vg}")
             if "violated" not in vb:
                 fails.append(f"{rule_fn.__name__}: broken example {bad} -> {vb}")
-        for rule_fn, good, bad in ((astq.orientation_guess_rule, "turn_ok", "turn_bad"), (effects.alias_inplace_rule, "twice_ok", "twice_bad")):
+        for rule_fn, good, bad in ((astq.orientation_guess_rule, "turn_ok", "turn_bad"), (effects.alias_inplace_rule, "twice_ok", "twice_bad"),
+                                   (effects.consumed_in_loop_rule, "take_ok", "take_bad"), (astq.empty_selection_rule, "sel_ok", "sel_bad"),
+                                   (astq.falsy_default_rule, "crit_ok", "crit_bad")):
             n += 1
             vg, vb = verdicts(rule_fn, [good]), verdicts(rule_fn, [bad])
             if "violated" in vg or "undecided" in vg:
